@@ -57,6 +57,7 @@ fn sql_pred(p: &Value) -> String {
             }
         }
         "cmp" => format!("{} {} {}", a[1].as_str().unwrap(), a[2].as_str().unwrap(), lit(&a[3])),
+        "between" => format!("{} BETWEEN {} AND {}", a[1].as_str().unwrap(), lit(&a[2]), lit(&a[3])),
         "isnull" => format!("{} IS NULL", a[1].as_str().unwrap()),
         "notnull" => format!("{} IS NOT NULL", a[1].as_str().unwrap()),
         "and" => format!("({}) AND ({})", sql_pred(&a[1]), sql_pred(&a[2])),
@@ -401,6 +402,136 @@ async fn exec_step(ctx: &mut Ctx, step: &Value) -> (String, String, Value) {
             let r = d.delete_config_keys(&ks).await;
             let out = res_of(&r);
             ctx.handles.insert(h.clone(), d);
+            out
+        }
+        "query" => {
+            // one filter, many execution-knob variants; every variant's result is recorded
+            let filter = sql_pred(&step["pred"]);
+            let mut results = vec![];
+            let variants = step["variants"].as_array().cloned().unwrap_or_else(|| vec![json!({"name": "base"})]);
+            for var in variants {
+                let r: lance::Result<(Vec<i64>, Vec<i64>, i64)> = async {
+                    let d = Dataset::open(&ctx.uri).await?;
+                    let mut sc = d.scan();
+                    let mut cols = vec!["id".to_string()];
+                    if let Some(oc) = step.get("order").and_then(|o| o.get("col")).and_then(|c| c.as_str()) {
+                        if oc != "id" {
+                            cols.push(oc.to_string());
+                        }
+                    }
+                    sc.project(&cols)?;
+                    if filter != "true" || var.get("force_filter").is_some() {
+                        sc.filter(&filter)?;
+                    }
+                    if let Some(b) = var.get("batch_size").and_then(|v| v.as_u64()) {
+                        sc.batch_size(b as usize);
+                    }
+                    if let Some(b) = var.get("batch_readahead").and_then(|v| v.as_u64()) {
+                        sc.batch_readahead(b as usize);
+                    }
+                    if let Some(b) = var.get("fragment_readahead").and_then(|v| v.as_u64()) {
+                        sc.fragment_readahead(b as usize);
+                    }
+                    if let Some(b) = var.get("scan_in_order").and_then(|v| v.as_bool()) {
+                        sc.scan_in_order(b);
+                    }
+                    if let Some(b) = var.get("use_stats").and_then(|v| v.as_bool()) {
+                        sc.use_stats(b);
+                    }
+                    if let Some(b) = var.get("use_scalar_index").and_then(|v| v.as_bool()) {
+                        sc.use_scalar_index(b);
+                    }
+                    if let Some(b) = var.get("strict_batch_size").and_then(|v| v.as_bool()) {
+                        sc.strict_batch_size(b);
+                    }
+                    if var.get("with_row_id").and_then(|v| v.as_bool()).unwrap_or(false) {
+                        sc.with_row_id();
+                    }
+                    if var.get("with_row_address").and_then(|v| v.as_bool()).unwrap_or(false) {
+                        sc.with_row_address();
+                    }
+                    if let Some(m) = var.get("materialization").and_then(|v| v.as_str()) {
+                        sc.materialization_style(match m {
+                            "early" => lance::dataset::scanner::MaterializationStyle::AllEarly,
+                            "late" => lance::dataset::scanner::MaterializationStyle::AllLate,
+                            _ => lance::dataset::scanner::MaterializationStyle::Heuristic,
+                        });
+                    }
+                    if let Some(o) = step.get("order") {
+                        let col = o["col"].as_str().unwrap().to_string();
+                        let asc = o["asc"].as_bool().unwrap_or(true);
+                        let nulls_first = o["nulls_first"].as_bool().unwrap_or(true);
+                        sc.order_by(Some(vec![lance::dataset::scanner::ColumnOrdering {
+                            ascending: asc,
+                            nulls_first,
+                            column_name: col,
+                        }]))?;
+                    }
+                    if step.get("limit").is_some() || step.get("offset").is_some() {
+                        sc.limit(step.get("limit").and_then(|v| v.as_i64()), step.get("offset").and_then(|v| v.as_i64()))?;
+                    }
+                    let batches: Vec<arrow_array::RecordBatch> =
+                        futures::TryStreamExt::try_collect(sc.try_into_stream().await?).await?;
+                    let mut ids = vec![];
+                    let mut keys = vec![];
+                    let mut max_batch = 0i64;
+                    for b in &batches {
+                        max_batch = max_batch.max(b.num_rows() as i64);
+                        let a = b.column_by_name("id").unwrap();
+                        let a = arrow_array::cast::AsArray::as_primitive::<arrow_array::types::Int32Type>(a.as_ref());
+                        for i in 0..b.num_rows() {
+                            ids.push(a.value(i) as i64);
+                        }
+                        if cols.len() > 1 {
+                            let k = b.column_by_name(&cols[1]).unwrap();
+                            let k = arrow_array::cast::AsArray::as_primitive::<arrow_array::types::Int32Type>(k.as_ref());
+                            for i in 0..b.num_rows() {
+                                keys.push(if arrow_array::Array::is_null(k, i) { NULL } else { k.value(i) as i64 });
+                            }
+                        }
+                    }
+                    let cnt = if filter == "true" { d.count_rows(None).await? } else { d.count_rows(Some(filter.clone())).await? };
+                    let _ = max_batch;
+                    Ok((ids, keys, cnt as i64))
+                }
+                .await;
+                match r {
+                    Ok((ids, keys, cnt)) => results.push(json!({"variant": var, "res": "ok", "ids": ids, "keys": keys, "count": cnt})),
+                    Err(e) => results.push(json!({"variant": var, "res": classify(&e), "text": err_text(&e), "ids": [], "keys": [], "count": -1})),
+                }
+            }
+            extra = json!({"results": results, "sql": filter});
+            ("ok".into(), String::new())
+        }
+        "take" => {
+            // take by offsets in the scan order of the latest version / by row ids
+            let r: lance::Result<Value> = async {
+                let d = Dataset::open(&ctx.uri).await?;
+                let proj = d.schema().project(&["id"])?;
+                // by = "addr": keys are [fragment, offset] pairs composed here into 64-bit addresses
+                let keys: Vec<u64> = step["keys"]
+                    .as_array()
+                    .unwrap()
+                    .iter()
+                    .map(|x| match x.as_array() {
+                        Some(p) => (p[0].as_u64().unwrap() << 32) | p[1].as_u64().unwrap(),
+                        None => x.as_u64().unwrap(),
+                    })
+                    .collect();
+                let b = if step["by"].as_str() == Some("offset") {
+                    d.take(&keys, proj).await?
+                } else {
+                    d.take_rows(&keys, proj).await?
+                };
+                let a = b.column_by_name("id").unwrap();
+                let a = arrow_array::cast::AsArray::as_primitive::<arrow_array::types::Int32Type>(a.as_ref());
+                Ok(json!((0..b.num_rows()).map(|i| a.value(i) as i64).collect::<Vec<_>>()))
+            }
+            .await;
+            let out = res_of(&r);
+            if let Ok(v) = r {
+                extra = json!({"ids": v});
+            }
             out
         }
         "reread" => {
